@@ -222,9 +222,14 @@ def hooks(ctx):
                     bad.append("callee %s is not a loop variable over one class table" % name_)
                 else:
                     tables.add(("table", attrs.pop()))
-        out.append(Obligation("C20.H1[%s] every return of _load_entity wraps the record given" % clsname, [], tm.B(not bad), kind="F",
-                              text="; ".join(bad[:5]) or "returns: %s" % sorted(tables), meta=dict(function="%s._load_entity" % owner, file=rel,
-                                                                                                   clause="hook-shape", detail=bad[:10])))
+        if bad:
+            # a body of another shape is not a wrong body: the assumed hook contract stays undischarged for this registry
+            # (DEGRADED; the exhaustive enumeration of the archive decides)
+            ctx.fun_info.append(dict(function="%s::%s._load_entity" % (rel, owner),
+                                     unreached="hook body outside the shape C20.H1 recognises: %s" % "; ".join(bad[:3])))
+            continue
+        out.append(Obligation("C20.H1[%s] every return of _load_entity wraps the record given" % clsname, [], tm.TRUE, kind="F",
+                              text="returns: %s" % sorted(tables), meta=dict(function="%s._load_entity" % owner, file=rel, clause="hook-shape")))
         # C: the classes
         cbad, ncls = [], 0
         try:
